@@ -352,6 +352,23 @@ def qtySum (s : QState) (dflt : Rounding) : List Qty → Except Err (Option Qty)
       | some q => (s.qtyAddSub dflt 1 q y).map some
       | none => .ok none) (.ok (some x))
 
+/-- what `Quantity.__hash__` feeds to `hash` (after the `fix:` commit): the
+amount in the reference unit and the type when the type has a reference unit,
+otherwise amount and unit -/
+inductive QHashKey where
+  | ref (value : Rat) (cls : Nat)
+  | raw (amount : Rat) (unit : Nat)
+  deriving DecidableEq, Repr, Inhabited
+
+def qtyHashKey (s : QState) (a : Qty) : QHashKey :=
+  let c := s.reg.unitCls a.unit
+  match (s.reg.cls c).refUnit, (s.reg.unit a.unit).equiv with
+  | some _, some e => .ref (a.amount * e) c
+  | _, _ => .raw a.amount a.unit
+
+/-- what `Unit.__hash__` feeds to `hash`: the symbol -/
+def unitHashKey (s : QState) (u : Nat) : String := (s.reg.unit u).symbol
+
 /-- reference value (amount in the reference unit), when the class has one -/
 def refValue (s : QState) (a : Qty) : Option Rat :=
   if (s.reg.cls (s.reg.unitCls a.unit)).refUnit.isSome then
